@@ -24,9 +24,35 @@ def batch_in_effect(rng, n):
     return out
 
 
+def dispose_in_batch():
+    """a signal that is written and then destroyed (directly, or with the scope that owns it) inside the batch, before or between the
+    writes to signals whose reactions must still all happen when the outermost batch returns (seed C10-f)"""
+    out = []
+    for how in ("sig", "scope"):
+        for pos in (0, 1, 2):
+            for nest in (False, True):
+                for watched in (False, True):
+                    tmp = [("signal", 7, ("lit", 0))] if how == "sig" else [("scope", 9, [("signal", 7, ("lit", 0))])]
+                    prog = [("signal", 1, ("lit", 0)), ("signal", 2, ("lit", 0))] + tmp + [
+                        ("memo", 4, ("body", None, [], ("add", ("get", 1), ("get", 2)))),
+                        ("memo", 5, ("body", None, [], ("add", ("get", 2), ("lit", 10)))),
+                        ("effect", 6, ("body", None, [], ("get", 2)))]
+                    if watched:
+                        prog.append(("scope", 3, [("effect", 8, ("body", None, [], ("get", 7)))]))
+                    gone = [("set", 7, ("lit", 1))] + ([("dispose", 3)] if watched else []) + [("dispose", 7 if how == "sig" else 9)]
+                    if nest:
+                        gone = [("batch", gone)]
+                    w = [("set", 1, ("lit", 1)), ("set", 2, ("lit", 2))]
+                    body = w[:pos] + gone + w[pos:]
+                    prog += [("batch", body), ("set", 2, ("lit", 5))]
+                    out.append(prog)
+    return out
+
+
 def gen(tier, rng):
     n = 900 if tier == "quick" else 12000
     cases = [("batch-in-effect:%d" % i, p) for i, p in enumerate(batch_in_effect(rng, 30 if tier == "quick" else 300))]
+    cases += [("dispose-in-batch:%d" % i, p) for i, p in enumerate(dispose_in_batch())]
     cases += [("fanin-batch:%d" % i, p) for i, p in enumerate(c02.fanin_batches(rng, 300 if tier == "quick" else 4000))]
     cases += [("random:%d" % i, p) for i, p in
               enumerate(reactive_gen.random_programs(rng.randrange(1 << 30), n, FEATS, (3, 7), (3, 7)))]
